@@ -94,4 +94,4 @@ def run(rep, tier, replay):
         extra["mt_sessions"] = mt_leg(rep, tier)
     return c03.run_family(rep, tier, replay, "C02", mix="all", probes=["text"], by_kinds=True, run_out=True, extra_cov=extra,
                           quick=dict(maxcmd=14, maxbps=3, ncands=4, nhist=8, maxbk=5, signals=True, extras=True, also_adjacent=2),
-                          thorough=dict(maxcmd=20, maxbps=4, ncands=6, nhist=40, maxbk=8, signals=True, extras=True, also_adjacent=6))
+                          thorough=dict(maxcmd=20, maxbps=4, ncands=6, nhist=40, maxbk=8, signals=True, extras=True, also_adjacent=6, nopie=True))
